@@ -31,8 +31,48 @@ mod evalkit;
 
 use runner::{Check, Tier};
 
+/// A check whose thorough bound is cheap enough (well under a minute on 16
+/// cores) to be what the QUICK command runs as well: both tiers enumerate the
+/// thorough space.  (The evidence still records the tier that was asked for.)
+struct Promoted(&'static dyn Check);
+
+impl Check for Promoted {
+    fn id(&self) -> &'static str {
+        self.0.id()
+    }
+    fn units(&self, _tier: Tier) -> usize {
+        self.0.units(Tier::Thorough)
+    }
+    fn run_unit(&self, _tier: Tier, unit: usize, cx: &mut runner::Cx) {
+        self.0.run_unit(Tier::Thorough, unit, cx)
+    }
+    fn meta(&self, _tier: Tier) -> runner::Meta {
+        let mut m = self.0.meta(Tier::Thorough);
+        m.bounds = format!("{} (the quick command runs the thorough bound for this check)", m.bounds);
+        m
+    }
+    fn unit_label(&self, _tier: Tier, unit: usize) -> String {
+        self.0.unit_label(Tier::Thorough, unit)
+    }
+    fn case_timeout_s(&self, tier: Tier) -> f64 {
+        self.0.case_timeout_s(tier)
+    }
+    fn replay_attempts(&self) -> u32 {
+        self.0.replay_attempts()
+    }
+}
+
+static P11: Promoted = Promoted(&c11::C11);
+static P12: Promoted = Promoted(&c12::C12);
+static P13: Promoted = Promoted(&c13::C13);
+static P14: Promoted = Promoted(&c14::C14);
+static P15: Promoted = Promoted(&c15::C15);
+static P16: Promoted = Promoted(&c16::C16);
+static P17: Promoted = Promoted(&c17::C17);
+static P19: Promoted = Promoted(&c19::C19);
+
 fn checks() -> Vec<&'static dyn Check> {
-    vec![&c01::C01, &c02::C02, &c03::C03, &c04::C04, &c05::C05, &c06::C06, &c07::C07, &c08::C08, &c09::C09, &c10::C10, &c11::C11, &c12::C12, &c13::C13, &c14::C14, &c15::C15, &c16::C16, &c17::C17, &c18::C18, &c19::C19, &c20::C20]
+    vec![&c01::C01, &c02::C02, &c03::C03, &c04::C04, &c05::C05, &c06::C06, &c07::C07, &c08::C08, &c09::C09, &c10::C10, &P11, &P12, &P13, &P14, &P15, &P16, &P17, &c18::C18, &P19, &c20::C20]
 }
 
 fn usage() -> ! {
